@@ -1614,6 +1614,14 @@ def c06_transfer_split(env):
         opt[fld] = z3.BitVec(f"transfer.{fld}.is_some", 64)
         a["#d"] = opt[fld]
         T[env.fidx("Transfer", fld)] = a
+    # fields that every frame of the delivery must keep: the (transactional) delivery state travels with each frame --
+    # the resource side sorts incoming transfer FRAMES by it (TxnSession::on_incoming_transfer)
+    kept = {}
+    for fld in ("state",):
+        a = mir.Agg(fld)
+        kept[fld] = z3.BitVec(f"transfer.{fld}.is_some", 64)
+        a["#d"] = kept[fld]
+        T[env.fidx("Transfer", fld)] = a
 
     def buf_of(ex_, st, v):
         while isinstance(v, mir.Ref):
@@ -1652,6 +1660,9 @@ def c06_transfer_split(env):
         b["gen"] = k
         tr = buf_of(ex_, st, argvals[0])
         snap = {"more": tr[f_more], **{fld: tr[env.fidx("Transfer", fld)]["#d"] for fld in opt}}
+        for fld in kept:
+            kv = tr.get(env.fidx("Transfer", fld))
+            snap[fld] = kv.get("#d") if isinstance(kv, mir.Agg) else None
         st.locals["@world"]["snaps"] = st.locals["@world"]["snaps"] + (snap,)
         r = mir.Agg("Result")
         r["#d"] = z3.BitVec(f"serialize.result#{ex_.ctx.n}", 64)
@@ -1712,7 +1723,7 @@ def c06_transfer_split(env):
     dst = mir.Agg("dst")
     dst[0] = z3.BitVecVal(0, 64)
     paths = ex.run(fn, {"_1": mir.Ref(("@enc",), False), "@enc": enc, "_2": mir.Ref(("@dst",), True), "@dst": dst, "_4": T, "_5": pay, "@world": world})
-    hyp = ex.assumptions + [z3.UGE(B, 16), z3.ULT(B, 1 << 16), z3.ULE(PL, 2 * B)] + [z3.ULE(opt[f], 1) for f in opt]
+    hyp = ex.assumptions + [z3.UGE(B, 16), z3.ULT(B, 1 << 16), z3.ULE(PL, 2 * B)] + [z3.ULE(opt[f], 1) for f in opt] + [z3.ULE(kept[f], 1) for f in kept]
 
     def phyp():
         h = [z3.And(z3.UGE(p, 1), z3.ULE(p, z3.LShR(B, 1))) for p in P]
@@ -1736,7 +1747,7 @@ def c06_transfer_split(env):
         probes = [(64, x, mo) for x in range(0, 200) for mo in (0, 1)]
         if 16 <= b <= 4096 and pl <= 3 * b:
             probes += [(b, x, mo) for x in sorted({max(pl + d, 0) for d in range(-48, 49)}) for mo in (0, 1)]
-        cmds = [f"split {fs} {n} 1 {mo}" for fs, n, mo in probes]
+        cmds = [f"split {fs} {n} 1 {mo} 1" for fs, n, mo in probes]
 
         def bad(outs):
             for (fs, n, mo), js in zip(probes, outs):
@@ -1748,6 +1759,8 @@ def c06_transfer_split(env):
                     if (not last and f["len"] != fs) or f["len"] > fs or f["more"] != ((mo == 1) if last else True):
                         return True
                     if (i > 0 and (f["has_id"] or f["has_tag"] or f["has_fmt"])) or (i == 0 and not (f["has_id"] and f["has_tag"])):
+                        return True
+                    if not f.get("has_state", True):
                         return True
             return False
 
@@ -1803,6 +1816,8 @@ def c06_transfer_split(env):
             for fld in opt:
                 want = opt[fld] if j == 0 else z3.BitVecVal(0, 64)
                 o.prove(f"path{i}:frame{j}-{fld}", H, snap[fld] == want, replay=replay)
+            for fld in kept:
+                o.prove(f"path{i}:frame{j}-keeps-{fld}", H, (snap[fld] == kept[fld]) if snap.get(fld) is not None else z3.BoolVal(False), replay=replay)
         o.prove(f"path{i}:chunks-add-up-to-the-payload", H, total == PL, replay=replay)
         for (d, ok, c) in p.obligations:
             o.prove(f"path{i}:{d}", hyp + phyp() + c, ok, replay=replay)
@@ -6568,14 +6583,13 @@ def c11_input_handle_follows_the_attach(env):
         A[i_h] = H_
         paths = ex.run(fn, {"_1": mir.Ref(("@self",), True), "@self": L, "_2": A})
         hyp = ex.assumptions + [z3.ULE(old_d, 1)]
+        # one query per role: the conjunction of `path condition => goal` over all accepting paths (thousands of
+        # paths differ only in branches that do not touch the handle)
+        imps = []
         for i, p in enumerate(paths):
             if p.end != "return" or not isinstance(p.ret, mir.Agg) or "#d" not in p.ret:
                 continue
             H = hyp + p.cond + [p.ret["#d"] == 0]
-            s = z3.Solver()
-            s.add(*H)
-            if s.check() != z3.sat:
-                continue
             n += 1
             cur = p.locals["@self"].get(f_in)
             d = cur.get("#d") if isinstance(cur, mir.Agg) else None
@@ -6583,9 +6597,10 @@ def c11_input_handle_follows_the_attach(env):
             inner = some.get(0) if isinstance(some, mir.Agg) else None
             val = inner.get(0) if isinstance(inner, mir.Agg) else None
             if d is None or val is None or not z3.is_expr(val):
-                o.prove(f"{role}:path{i}:the-handle-is-the-one-of-this-attach", H, z3.BoolVal(False), replay=replay)
+                imps.append(z3.Implies(z3.And(*H), z3.BoolVal(False)))
             else:
-                o.prove(f"{role}:path{i}:the-handle-is-the-one-of-this-attach", H, z3.And(d == 1, val == new_v), replay=replay)
+                imps.append(z3.Implies(z3.And(*H), z3.And(d == 1, val == new_v)))
+        o.prove(f"{role}:the-handle-is-the-one-of-this-attach ({len(imps)} accepting paths)", [], z3.And(*imps) if imps else z3.BoolVal(False), replay=replay)
     o.functions = fns
     o.bounds = ["one call each; the link remembering no handle or any 32-bit handle; every 32-bit handle in the attach; every path on which the attach is accepted (Ok)"]
     o.assumes = ["InputHandle::from(Handle) keeps the number"]
@@ -6736,3 +6751,48 @@ def c12_close_reports_the_engines_outcome(env):
 
 REGISTRY.setdefault("C12", []).append(c12_close_reports_the_engines_outcome)
 REGISTRY.setdefault("C14", []).append(lambda env: [_retagged(x, "C14", "c14_close_reports_the_engines_outcome") for x in c12_close_reports_the_engines_outcome(env)])
+
+
+# ---- C20: both readers hand an un-decoded (lazy) value to the visitor the same way -----------------------------
+
+
+def c20_lazy_value_hand_over(env):
+    o = Obligation("c20_both_readers_hand_a_lazy_value_over_as_an_owned_buffer", "C20")
+    o.desc = "Read::forward_read_byte_buf (the raw bytes of the next value, read without decoding: LazyValue, deserialize_byte_buf): the slice reader and the io reader both pass the bytes they read to Visitor::visit_byte_buf -- the owned form, which every visitor understands (serde forwards it to visit_bytes by default, but not the other way round) -- so that decoding from a slice and from a stream succeed or fail together; a reader that hands the buffer over by reference makes from_reader fail for a visitor that, like LazyValue's, takes ownership"
+    senv = env.crate("serde_amqp")
+    fns = []
+    n = 0
+
+    def replay(m):
+        return "lazy_reader", (lambda js: js.get("panic") or not js["agree"])
+
+    for which, pat in (("slice", r"^read::sliceread::<impl at [^>]*>::forward_read_byte_buf$|^sliceread::<impl at [^>]*>::forward_read_byte_buf$"), ("io", r"^read::ioread::<impl at [^>]*>::forward_read_byte_buf$|^ioread::<impl at [^>]*>::forward_read_byte_buf$")):
+        fn = mir.find_fn(senv.fns, pat)
+        fns.append(fn.name)
+        ex = mir.Executor(senv.fns, senv.structs, senv.enums, max_visits=3, consts=senv.consts)
+        paths = ex.run(fn, {"_1": mir.Ref(("@reader",), True), "@reader": mir.Agg("reader"), "_2": mir.Agg("visitor")})
+        for i, p in enumerate(paths):
+            if p.end != "return":
+                continue
+            reads = [c for c in p.calls if re.search(r"read_primitive_bytes_or_else", c[0])]
+            if not reads:
+                continue
+            res = reads[-1][3]
+            ok_read = (res["#d"] == 0) if isinstance(res, mir.Agg) and "#d" in res else z3.BoolVal(True)
+            H = ex.assumptions + p.cond + [ok_read]
+            s = z3.Solver()
+            s.add(*H)
+            if s.check() != z3.sat:
+                continue
+            n += 1
+            owned = [c for c in p.calls if re.search(r"Visitor<'_>>::visit_byte_buf::<|Visitor<'de>>::visit_byte_buf::<|::visit_byte_buf::<", c[0])]
+            other = [c for c in p.calls if re.search(r"::visit_(borrowed_)?bytes::<", c[0])]
+            o.prove(f"{which}:path{i}:handed-over-as-an-owned-buffer", H, z3.BoolVal(len(owned) == 1 and not other), replay=replay)
+    o.functions = fns
+    o.bounds = ["one call of each reader's method; reading the raw value succeeds or fails"]
+    o.assumes = ["serde's default Visitor::visit_byte_buf forwards to visit_bytes"]
+    o.cover("paths that read a value", [z3.BoolVal(n >= 2)])
+    return [o]
+
+
+REGISTRY.setdefault("C20", []).append(c20_lazy_value_hand_over)
